@@ -556,6 +556,7 @@ template <class G> struct Monitor {
         if (n > 0 && T.e.size() < (directed ? (size_t)n * n : (size_t)n * (n + 1) / 2)) feasible.push_back(0);
         if (!T.e.empty()) { feasible.push_back(1); feasible.push_back(2); }
         feasible.push_back(3);
+        if (feasible.size() >= 4 && feasible[0] == 0) { feasible.push_back(4); feasible.push_back(4); } // move one edge (same count and value)
         int pk = feasible[r.u((unsigned)feasible.size())];
         std::string pdesc;
         if (pk == 0) {
@@ -573,6 +574,14 @@ template <class G> struct Monitor {
             std::advance(it, r.u((unsigned)T.e.size()));
             D.addMultiedge(it->first.first, it->first.second, 1);
             pdesc = "one-multiplicity-differs";
+        } else if (pk == 4) {
+            auto it = T.e.begin();
+            std::advance(it, r.u((unsigned)T.e.size()));
+            VertexIndex i, j;
+            do { i = r.u(n); j = r.chance(1, 3) ? i : r.u(n); } while (T.has(i, j));
+            D.setEdgeMultiplicity(it->first.first, it->first.second, 0);
+            D.addMultiedge(i, j, it->second.mult);
+            pdesc = "one-edge-moved";
         } else {
             D.resize(n + 1);
             pdesc = "one-extra-vertex";
